@@ -557,3 +557,1015 @@ Example wf_pieces_stated_false_2 :
   /\ wf_red (sprint_pieces ps) = false
   /\ redact (sprint_pieces ps) = m_redacted ++ [97] ++ m_end.   (* the unsafe 'a' leaks *)
 Proof. split; [repeat constructor|split; vm_compute; reflexivity]. Qed.
+
+(* ------------------------------------------------------------------ *)
+(* N4 / N5 : what Redact() keeps, followed through the automaton       *)
+(* ------------------------------------------------------------------ *)
+(* Redact() on a well-formed token list *)
+Fixpoint rv (l : list tok) (o : bool) : str :=
+  match l with
+  | [] => []
+  | TOpen :: r => rv r true
+  | TClose :: r => m_redacted ++ rv r false
+  | TB b :: r => if o then rv r o else b :: rv r o
+  end.
+
+Lemma redact_toks_rv l :
+  (wf_toks l false = true -> untok (redact_toks l None) = rv l false)
+  /\ (forall p, wf_toks l true = true -> untok (redact_toks l (Some p)) = rv l true).
+Proof.
+  induction l as [|t l [IH0 IH1]]; [split; [reflexivity|discriminate]|].
+  split.
+  - intro H. destruct t as [| |b]; cbn [wf_toks negb andb] in H.
+    + cbn [redact_toks rv]. now apply IH1.
+    + discriminate.
+    + apply andb_true_iff in H as [_ H]. cbn [redact_toks rv].
+      change (untok (TB b :: redact_toks l None)) with (b :: untok (redact_toks l None)).
+      f_equal. now apply IH0.
+  - intros p H. destruct t as [| |b]; cbn [wf_toks negb andb] in H.
+    + discriminate.
+    + cbn [redact_toks rv].
+      change (untok (TOpen :: TB 195 :: TB 151 :: TClose :: redact_toks l None))
+        with (m_redacted ++ untok (redact_toks l None)).
+      f_equal. now apply IH0.
+    + apply andb_true_iff in H as [_ H]. cbn [redact_toks rv]. now apply IH1.
+Qed.
+
+Lemma redact_rv s : wf_red s = true -> redact s = rv (tokenize s) false.
+Proof. intro H. unfold redact. now apply (proj1 (redact_toks_rv (tokenize s))). Qed.
+
+(* the view: bytes outside regions, in reverse, computed along the automaton *)
+Definition rmred : str := rev m_redacted.
+
+Definition vout (st st' : option ast) (x : N) (out : str) : str :=
+  match st, st' with
+  | Some (false, _, _), Some (false, _, _) => x :: out
+  | Some (false, _, _), Some (true, _, _) => tl (tl out)
+  | Some (true, _, _), Some (false, _, _) => rmred ++ out
+  | _, _ => out
+  end.
+
+Definition vstep (p : option ast * str) (x : N) : option ast * str :=
+  (step true (fst p) x, vout (fst p) (step true (fst p) x) x (snd p)).
+
+Definition vrun (s : str) (p : option ast * str) : option ast * str := fold_left vstep s p.
+
+Lemma vrun_cons x s p : vrun (x :: s) p = vrun s (vstep p x).
+Proof. reflexivity. Qed.
+
+Lemma vrun_app a b p : vrun (a ++ b) p = vrun b (vrun a p).
+Proof. unfold vrun. apply fold_left_app. Qed.
+
+Lemma vrun_fst s : forall p, fst (vrun s p) = run true s (fst p).
+Proof. induction s as [|x s IH]; intro p; [reflexivity|]. rewrite vrun_cons, run_cons, IH. reflexivity. Qed.
+
+Definition okout (o : bool) (pre out0 : str) : str := if o then out0 else pre ++ out0.
+
+Lemma vcorr s : forall o d out0,
+   (alive (run true s (Some (o, K0, d))) = true ->
+      rev (snd (vrun s (Some (o, K0, d), out0))) = rev out0 ++ rv (tokenize s) o)
+/\ (alive (run true s (Some (o, K1, d))) = true ->
+      rev (snd (vrun s (Some (o, K1, d), okout o [226] out0))) = rev out0 ++ rv (tokenize (226 :: s)) o)
+/\ (alive (run true s (Some (o, K2, d))) = true ->
+      rev (snd (vrun s (Some (o, K2, d), okout o [128; 226] out0))) = rev out0 ++ rv (tokenize (226 :: 128 :: s)) o).
+Proof.
+  induction s as [|x s IH]; intros o d out0.
+  - repeat split; intros _; destruct o; cbn; rewrite ?app_nil_r, <- ?app_assoc; reflexivity.
+  - repeat split; intro Hal; rewrite run_cons in Hal; rewrite vrun_cons; unfold vstep; cbn [fst snd];
+      cbn [step] in Hal |- *.
+    + destruct (x =? 226) eqn:E226.
+      * apply N.eqb_eq in E226. subst x. destruct (IH o d out0) as [_ [I1 _]].
+        etransitivity; [|exact (I1 Hal)]. destruct o; reflexivity.
+      * rewrite tokenize_cons_plain by assumption.
+        destruct ((x =? nl) && o) eqn:En; [rewrite run_None in Hal; discriminate|].
+        destruct (IH o false (okout o [x] out0)) as [J0 _].
+        replace (vout (Some (o, K0, d)) (Some (o, K0, false)) x out0) with (okout o [x] out0)
+          by (destruct o; reflexivity).
+        etransitivity; [exact (J0 Hal)|]. destruct o; cbn [okout rv app rev]; rewrite <- ?app_assoc; reflexivity.
+    + destruct (x =? 226) eqn:E226.
+      * apply N.eqb_eq in E226. subst x. rewrite tok_226_other by reflexivity.
+        destruct (IH o true (okout o [226] out0)) as [_ [T1 _]].
+        replace (vout (Some (o, K1, d)) (Some (o, K1, true)) 226 (okout o [226] out0))
+          with (okout o [226] (okout o [226] out0)) by (destruct o; reflexivity).
+        etransitivity; [exact (T1 Hal)|]. destruct o; cbn [okout rv app rev]; rewrite <- ?app_assoc; reflexivity.
+      * destruct (x =? 128) eqn:E128.
+        { apply N.eqb_eq in E128. subst x. destruct (IH o d out0) as [_ [_ I2]].
+          etransitivity; [|exact (I2 Hal)]. destruct o; reflexivity. }
+        rewrite tok_226_other by assumption. rewrite tokenize_cons_plain by assumption.
+        destruct ((x =? nl) && o) eqn:En; [rewrite run_None in Hal; discriminate|].
+        destruct (IH o false (okout o [x; 226] out0)) as [J0 _].
+        replace (vout (Some (o, K1, d)) (Some (o, K0, false)) x (okout o [226] out0))
+          with (okout o [x; 226] out0) by (destruct o; reflexivity).
+        etransitivity; [exact (J0 Hal)|]. destruct o; cbn [okout rv app rev]; rewrite <- ?app_assoc; reflexivity.
+    + destruct (x =? 226) eqn:E226.
+      * apply N.eqb_eq in E226. subst x. rewrite tok_226_128_other by reflexivity.
+        destruct (IH o true (okout o [128; 226] out0)) as [_ [T1 _]].
+        replace (vout (Some (o, K2, d)) (Some (o, K1, true)) 226 (okout o [128; 226] out0))
+          with (okout o [226] (okout o [128; 226] out0)) by (destruct o; reflexivity).
+        etransitivity; [exact (T1 Hal)|]. destruct o; cbn [okout rv app rev]; rewrite <- ?app_assoc; reflexivity.
+      * destruct (x =? 185) eqn:E185.
+        { apply N.eqb_eq in E185. subst x. destruct o; cbn [orb negb] in Hal |- *;
+            [rewrite run_None in Hal; discriminate|].
+          change (tokenize (226 :: 128 :: 185 :: s)) with (TOpen :: tokenize s). cbn [rv].
+          destruct (IH true d out0) as [Q0 _]. cbn [vout okout app tl]. exact (Q0 Hal). }
+        destruct (x =? 186) eqn:E186.
+        { apply N.eqb_eq in E186. subst x. destruct o; [|rewrite run_None in Hal; discriminate].
+          change (tokenize (226 :: 128 :: 186 :: s)) with (TClose :: tokenize s). cbn [rv].
+          destruct (IH false d (rmred ++ out0)) as [Q0 _]. cbn [vout okout]. etransitivity; [exact (Q0 Hal)|].
+          rewrite rev_app_distr. unfold rmred. rewrite rev_involutive, <- app_assoc. reflexivity. }
+        rewrite tok_226_128_other by assumption. rewrite tokenize_cons_plain by assumption.
+        destruct ((x =? nl) && o) eqn:En; [rewrite run_None in Hal; discriminate|].
+        destruct (IH o false (okout o [x; 128; 226] out0)) as [J0 _].
+        replace (vout (Some (o, K2, d)) (Some (o, K0, false)) x (okout o [128; 226] out0))
+          with (okout o [x; 128; 226] out0) by (destruct o; reflexivity).
+        etransitivity; [exact (J0 Hal)|]. destruct o; cbn [okout rv app rev]; rewrite <- ?app_assoc; reflexivity.
+Qed.
+
+(* reversed view of a whole string *)
+Definition vo (s : str) : str := snd (vrun s (Some st0, [])).
+
+Lemma redact_vo s : raw_ok s -> redact s = rev (vo s).
+Proof.
+  intro H. rewrite redact_rv by now apply raw_ok_wf.
+  destruct (vcorr s false false []) as [C _]. symmetry. apply C.
+  change (alive (sst true s) = true). now rewrite H.
+Qed.
+
+(* ---- the view of a reversed accumulator ---- *)
+Definition V (acc : str) : option ast * str := vrun (rev acc) (Some st0, []).
+Definition rvo (acc : str) : str := snd (V acc).
+
+Lemma V_fst acc : fst (V acc) = rs true acc.
+Proof. unfold V. rewrite vrun_fst. reflexivity. Qed.
+
+Lemma V_cons x acc : V (x :: acc) = vstep (V acc) x.
+Proof. unfold V. cbn [rev]. rewrite vrun_app. reflexivity. Qed.
+
+Lemma rvo_cons x acc :
+  rvo (x :: acc) = vout (rs true acc) (step true (rs true acc) x) x (rvo acc).
+Proof. unfold rvo. rewrite V_cons. unfold vstep. cbn [snd]. rewrite V_fst. reflexivity. Qed.
+
+Lemma rvo_vo s : vo s = rvo (rev s).
+Proof. unfold vo, rvo, V. now rewrite rev_involutive. Qed.
+
+Lemma rvo_open_push x acc k d k' d' :
+  rs true acc = Some (true, k, d) -> step true (rs true acc) x = Some (true, k', d') ->
+  rvo (x :: acc) = rvo acc.
+Proof. intros H1 H2. rewrite rvo_cons, H2, H1. reflexivity. Qed.
+
+Lemma rvo_closed_push x acc k d k' d' :
+  rs true acc = Some (false, k, d) -> step true (rs true acc) x = Some (false, k', d') ->
+  rvo (x :: acc) = x :: rvo acc.
+Proof. intros H1 H2. rewrite rvo_cons, H2, H1. reflexivity. Qed.
+
+Lemma rvo_rstart acc k d :
+  rs true acc = Some (false, k, d) -> rvo (rstart ++ acc) = rvo acc.
+Proof.
+  intro H. change (rstart ++ acc) with (185 :: 128 :: 226 :: acc).
+  rewrite rvo_cons, !rs_cons, rvo_cons, rs_cons, rvo_cons, H. destruct k; reflexivity.
+Qed.
+
+Lemma rvo_rend acc k d :
+  rs true acc = Some (true, k, d) -> rvo (rend ++ acc) = rmred ++ rvo acc.
+Proof.
+  intro H. change (rend ++ acc) with (186 :: 128 :: 226 :: acc).
+  rewrite rvo_cons, !rs_cons, rvo_cons, rs_cons, rvo_cons, H. destruct k; reflexivity.
+Qed.
+
+Lemma rvo_nls acc k d n :
+  rs true acc = Some (false, k, d) -> rvo (repeat nl n ++ acc) = repeat nl n ++ rvo acc.
+Proof.
+  intro H. induction n as [|n IH]; [reflexivity|].
+  cbn [repeat app]. rewrite rvo_cons, IH. destruct n as [|n].
+  - cbn [repeat app]. rewrite H. destruct k; reflexivity.
+  - rewrite (rs_nls true acc k d n H). reflexivity.
+Qed.
+
+(* "the buffer ends with the opening marker" *)
+Definition jb (acc : str) : bool :=
+  match drop_prefix rstart acc with Some _ => true | None => false end.
+
+Lemma jb_rstart acc : jb (rstart ++ acc) = true.
+Proof. reflexivity. Qed.
+
+Lemma jb_push ao acc o k d a t :
+  rs ao acc = Some (o, k, d) -> look k (a :: t) = true -> jb (a :: acc) = false.
+Proof.
+  intros H Hl. unfold jb. change rstart with [185; 128; 226]. cbn [drop_prefix].
+  destruct (185 =? a) eqn:Ea; [|reflexivity].
+  destruct acc as [|y [|z r]]; try reflexivity. { destruct (128 =? y); reflexivity. }
+  destruct (128 =? y) eqn:Ey; [|reflexivity]. destruct (226 =? z) eqn:Ez; [|reflexivity].
+  exfalso. apply N.eqb_eq in Ea, Ey, Ez. subst a y z.
+  rewrite !rs_cons in H. destruct (rs ao r) as [[[o' k'] d']|]; [|discriminate].
+  cbn in H. injection H as _ <- _. cbn in Hl. discriminate.
+Qed.
+
+(* ---- the trailing run of markers of a (reversed) buffer ---- *)
+Fixpoint tmr (a : str) : list bool :=
+  match a with
+  | x :: (y :: (z :: r)) =>
+    if (y =? 128) && (z =? 226) then
+      (if x =? 185 then true :: tmr r else if x =? 186 then false :: tmr r else [])
+    else []
+  | _ => []
+  end.
+
+Lemma tmr_rstart r : tmr (rstart ++ r) = true :: tmr r.
+Proof. reflexivity. Qed.
+Lemma tmr_rend r : tmr (rend ++ r) = false :: tmr r.
+Proof. reflexivity. Qed.
+
+Lemma tmr_true a l : tmr a = true :: l -> exists r, a = rstart ++ r /\ l = tmr r.
+Proof.
+  destruct a as [|x [|y [|z r]]]; try discriminate. cbn [tmr].
+  destruct (y =? 128) eqn:Ey; [|discriminate]. destruct (z =? 226) eqn:Ez; [|discriminate]. cbn [andb].
+  destruct (x =? 185) eqn:Ex.
+  - intro H. injection H as <-. apply N.eqb_eq in Ex, Ey, Ez. subst. exists r. split; reflexivity.
+  - destruct (x =? 186); discriminate.
+Qed.
+
+Lemma tmr_false a l : tmr a = false :: l -> exists r, a = rend ++ r /\ l = tmr r.
+Proof.
+  destruct a as [|x [|y [|z r]]]; try discriminate. cbn [tmr].
+  destruct (y =? 128) eqn:Ey; [|discriminate]. destruct (z =? 226) eqn:Ez; [|discriminate]. cbn [andb].
+  destruct (x =? 185) eqn:Ex; [discriminate|].
+  destruct (x =? 186) eqn:Ex2; [|discriminate].
+  intro H. injection H as <-. apply N.eqb_eq in Ex2, Ey, Ez. subst. exists r. split; reflexivity.
+Qed.
+
+Lemma tmr_plain x acc : mkb x = false -> tmr (x :: acc) = [].
+Proof.
+  unfold mkb. intro H. apply orb_false_iff in H as [H1 H2].
+  destruct acc as [|y [|z r]]; try reflexivity. cbn [tmr]. rewrite H1, H2.
+  destruct ((y =? 128) && (z =? 226)); reflexivity.
+Qed.
+
+Lemma jb_tmr a : jb a = match tmr a with true :: _ => true | _ => false end.
+Proof.
+  unfold jb. change rstart with [185; 128; 226].
+  destruct a as [|x [|y [|z r]]]; cbn [drop_prefix tmr].
+  - reflexivity.
+  - destruct (185 =? x); reflexivity.
+  - destruct (185 =? x); [|reflexivity]. destruct (128 =? y); reflexivity.
+  - rewrite (N.eqb_sym 185 x), (N.eqb_sym 128 y), (N.eqb_sym 226 z).
+    destruct (x =? 185) eqn:Ex.
+    + destruct (y =? 128); [|reflexivity]. destruct (z =? 226); reflexivity.
+    + destruct ((y =? 128) && (z =? 226)); [|reflexivity]. destruct (x =? 186); reflexivity.
+Qed.
+
+(* the pending-marker count is determined by the top of the buffer *)
+Lemma top_226 ao r o k d : rs ao (226 :: r) = Some (o, k, d) -> k = K1.
+Proof.
+  rewrite rs_cons. destruct (rs ao r) as [[[o' k'] d']|]; [|discriminate].
+  cbn. intro H. now injection H as _ <- _.
+Qed.
+
+Lemma top_128_226 ao r o k d : rs ao (128 :: 226 :: r) = Some (o, k, d) -> k = K2.
+Proof.
+  rewrite !rs_cons. destruct (rs ao r) as [[[o' k'] d']|]; [|discriminate].
+  cbn. intro H. now injection H as _ <- _.
+Qed.
+
+Lemma tmr_push ao acc o k d a t :
+  rs ao acc = Some (o, k, d) -> look k (a :: t) = true -> tmr (a :: acc) = [].
+Proof.
+  intros H Hl. destruct acc as [|y [|z r]]; try reflexivity. cbn [tmr].
+  destruct (y =? 128) eqn:Ey; [|reflexivity]. destruct (z =? 226) eqn:Ez; [|reflexivity]. cbn [andb].
+  apply N.eqb_eq in Ey, Ez. subst y z. apply top_128_226 in H. subst k.
+  cbn [look] in Hl. unfold mkb in Hl. apply negb_true_iff, orb_false_iff in Hl as [-> ->]. reflexivity.
+Qed.
+
+Lemma tmr_open a k d : rs true a = Some (true, k, d) -> tmr a = [] \/ jb a = true.
+Proof.
+  intro H. rewrite jb_tmr. destruct (tmr a) as [|[|] l] eqn:E; auto.
+  exfalso. apply tmr_false in E as [r [-> _]]. rewrite rs_app in H. change (rev rend) with m_end in H.
+  destruct (rs true r) as [[[o' k'] d']|]; [|discriminate]. destruct o', k'; discriminate.
+Qed.
+
+Lemma k0_tmr_app a1 a2 o1 d1 o2 d2 :
+  rs true a1 = Some (o1, K0, d1) -> rs true a2 = Some (o2, K0, d2) -> tmr a1 = tmr a2 ->
+  forall n l, List.length l = n -> tmr (l ++ a1) = tmr (l ++ a2).
+Proof.
+  intros H1 H2 Ht.
+  assert (N1 : forall a o d, rs true a = Some (o, K0, d) ->
+            (forall x, tmr (x :: a) = []) /\ (forall x y, tmr (x :: y :: a) = [])).
+  { intros a o d H. split.
+    - intro x. destruct a as [|y [|z r]]; try reflexivity. cbn [tmr].
+      destruct (y =? 128) eqn:Ey; [|reflexivity]. destruct (z =? 226) eqn:Ez; [|reflexivity].
+      apply N.eqb_eq in Ey, Ez. subst. apply top_128_226 in H. discriminate.
+    - intros x y. destruct a as [|z r]; [reflexivity|]. cbn [tmr].
+      destruct (y =? 128) eqn:Ey; [|reflexivity]. destruct (z =? 226) eqn:Ez; [|reflexivity].
+      apply N.eqb_eq in Ez. subst. apply top_226 in H. discriminate. }
+  destruct (N1 _ _ _ H1) as [A1 B1]. destruct (N1 _ _ _ H2) as [A2 B2].
+  induction n as [n IH] using lt_wf_ind. intros l Hl.
+  destruct l as [|x [|y [|z r]]].
+  - exact Ht.
+  - cbn [app]. now rewrite A1, A2.
+  - cbn [app]. now rewrite B1, B2.
+  - cbn [app tmr]. cbn [List.length] in Hl.
+    rewrite (IH (List.length r)) by (reflexivity || lia). reflexivity.
+Qed.
+
+(* what the newline-breaking loop adds to the view: only the line shape matters *)
+Fixpoint GA (j : bool) (s : str) (out : str) : str :=
+  match s with
+  | [] => out
+  | x :: t => if x =? nl then GA true t (nl :: (if j then out else rmred ++ out))
+              else GA false t out
+  end.
+
+Fixpoint JA (j : bool) (s : str) : bool :=
+  match s with
+  | [] => j
+  | x :: t => if x =? nl then JA true t else JA false t
+  end.
+
+Fixpoint TA (t : list bool) (s : str) : list bool :=
+  match s with
+  | [] => t
+  | x :: r => if x =? nl then TA [true] r else TA [] r
+  end.
+
+Lemma TA_nls n rest : TA [true] (repeat nl n ++ rest) = TA [true] rest.
+Proof. induction n as [|n IH]; [reflexivity|]. exact IH. Qed.
+
+Lemma GA_nls n rest out : GA true (repeat nl n ++ rest) out = GA true rest (repeat nl n ++ out).
+Proof.
+  revert out. induction n as [|n IH]; intro out; [reflexivity|].
+  cbn [repeat app GA]. change (nl =? nl) with true. cbv iota. rewrite IH.
+  now rewrite repeat_cons_app.
+Qed.
+
+Lemma JA_nls n rest : JA true (repeat nl n ++ rest) = JA true rest.
+Proof. induction n as [|n IH]; [reflexivity|]. exact IH. Qed.
+
+Lemma lri_nls n done : last_rune_invalid_rev (repeat nl (S n) ++ done) = false.
+Proof. reflexivity. Qed.
+
+Lemma loop_view : forall fuel s acc done k d,
+  (List.length s <= fuel)%nat -> rs true acc = Some (true, k, d) -> (k = K0 -> d = false) ->
+  look k s = true -> hist k done = true ->
+  (jb acc = true -> last_rune_invalid_rev done = false) ->
+  rvo (escape_loop fuel s acc true) = GA (jb acc) s (rvo acc)
+  /\ jb (escape_loop fuel s acc true) = JA (jb acc) s
+  /\ (jb (escape_loop fuel s acc true) = true -> last_rune_invalid_rev (rev s ++ done) = false)
+  /\ tmr (escape_loop fuel s acc true) = TA (tmr acc) s.
+Proof.
+  induction fuel as [|f IH]; intros s acc done k d Hlen Hrs Hd Hl Hh Hj.
+  - destruct s; [|cbn in Hlen; lia]. repeat split; assumption || reflexivity.
+  - destruct s as [|a t]; [repeat split; assumption || reflexivity|].
+    cbn [escape_loop]. cbn [List.length] in Hlen. cbn [andb].
+    destruct (a =? nl) eqn:Ea.
+    + remember (match drop_prefix rstart acc with
+                | Some acc' => acc' | None => rend ++ acc end) as acc1 eqn:Eacc1.
+      assert (H1 : exists k1 d1, rs true acc1 = Some (false, k1, d1)
+                 /\ rvo acc1 = if jb acc then rvo acc else rmred ++ rvo acc).
+      { subst acc1. unfold jb. destruct (drop_prefix rstart acc) as [acc'|] eqn:Edp.
+        - apply drop_prefix_Some in Edp. subst acc. pose proof Hrs as Hrs'. rewrite rs_app in Hrs'.
+          change (rev rstart) with m_start in Hrs'. apply strip_open in Hrs' as [k1 [d1 Hrs']].
+          exists k1, d1. split; [exact Hrs'|]. symmetry. exact (rvo_rstart _ _ _ Hrs').
+        - rewrite (rvo_rend _ _ _ Hrs). rewrite rs_app, Hrs. change (rev rend) with m_end.
+          destruct k; eexists; eexists; (split; [reflexivity|reflexivity]). }
+      clear Eacc1. destruct H1 as [k1 [d1 [H1 H1v]]].
+      cbv zeta. rewrite skip_nls_eq. cbv iota beta.
+      assert (Hc : exists n, cnt (a :: t) = S n) by (cbn [cnt]; rewrite Ea; eauto).
+      destruct Hc as [n Hc]. rewrite Hc.
+      pose proof (rs_nls true acc1 k1 d1 n H1) as H2.
+      assert (H3 : rs true (rstart ++ repeat nl (S n) ++ acc1) = Some (true, K0, false)).
+      { rewrite rs_app, H2. reflexivity. }
+      destruct (IH (skipn (S n) (a :: t)) (rstart ++ repeat nl (S n) ++ acc1) (repeat nl (S n) ++ done) K0 false)
+        as [R1 [R2 [R3 R4]]]; try reflexivity.
+      { rewrite skipn_length. cbn [List.length]. lia. }
+      { exact H3. }
+      rewrite jb_rstart in R1, R2.
+      rewrite (rvo_rstart _ _ _ H2), (rvo_nls _ _ _ _ H1), H1v in R1.
+      assert (Es : a :: t = repeat nl (S n) ++ skipn (S n) (a :: t)).
+      { rewrite <- Hc. apply cnt_split. }
+      split; [|split; [|split]].
+      * rewrite R1. rewrite Es at 2. cbn [repeat app GA]. change (nl =? nl) with true. cbv iota.
+        rewrite GA_nls. now rewrite repeat_cons_app.
+      * rewrite R2. rewrite Es at 2. cbn [repeat app JA]. change (nl =? nl) with true. cbv iota.
+        now rewrite JA_nls.
+      * intro Hjb. specialize (R3 Hjb). rewrite Es at 1. rewrite rev_app_distr, rev_repeat', <- app_assoc. exact R3.
+      * rewrite R4, tmr_rstart. change (repeat nl (S n) ++ acc1) with (nl :: (repeat nl n ++ acc1)).
+        rewrite (tmr_plain nl) by reflexivity. rewrite Es at 2. cbn [repeat app TA]. change (nl =? nl) with true.
+        cbv iota. now rewrite TA_nls.
+    + assert (Hb : true && (a =? nl) = false) by (now rewrite Ea).
+      assert (Hcopy : ((a =? 226) = true -> look K1 t = true) ->
+         rvo (escape_loop f t (a :: acc) true) = GA (jb acc) (a :: t) (rvo acc)
+         /\ jb (escape_loop f t (a :: acc) true) = JA (jb acc) (a :: t)
+         /\ (jb (escape_loop f t (a :: acc) true) = true ->
+             last_rune_invalid_rev (rev (a :: t) ++ done) = false)
+         /\ tmr (escape_loop f t (a :: acc) true) = TA (tmr acc) (a :: t)).
+      { intro H226. destruct (copy_step true true k d a t acc done Hrs Hd Hl Hh Hb H226) as [k1 [d1 [C1 [C2 [C3 C4]]]]].
+        pose proof (jb_push true acc true k d a t Hrs Hl) as Hjp.
+        destruct (IH t (a :: acc) (a :: done) k1 d1) as [R1 [R2 [R3 R4]]]; try assumption; [lia| |].
+        { rewrite Hjp. discriminate. }
+        rewrite Hjp in R1, R2. rewrite rs_cons in C1. rewrite (rvo_open_push _ _ _ _ _ _ Hrs C1) in R1.
+        rewrite (tmr_push true acc true k d a t Hrs Hl) in R4.
+        cbn [GA JA TA]. rewrite Ea. split; [exact R1|]. split; [exact R2|]. split; [|exact R4].
+        cbn [rev]. rewrite <- app_assoc. exact R3. }
+      destruct t as [|b [|c r]]; try (apply Hcopy; intros _; reflexivity).
+      destruct ((a =? 226) && (b =? 128) && ((c =? 185) || (c =? 186))) eqn:Em.
+      * assert (Hq : step true (rs true acc) qmark = Some (true, K0, false)).
+        { rewrite Hrs. destruct k; reflexivity. }
+        assert (Hjq : jb (qmark :: acc) = false) by reflexivity.
+        destruct (IH r (qmark :: acc) (c :: b :: a :: done) K0 false) as [R1 [R2 [R3 R4]]];
+          try reflexivity; try assumption.
+        { cbn [List.length] in Hlen. lia. }
+        { now rewrite rs_cons. }
+        { rewrite Hjq. discriminate. }
+        rewrite Hjq in R1, R2. rewrite (rvo_open_push _ _ _ _ _ _ Hrs Hq) in R1.
+        apply andb_true_iff in Em as [Em Ec]. apply andb_true_iff in Em as [Ea' Eb'].
+        assert (Eb2 : (b =? nl) = false) by (apply eqb_nl_false; tauto).
+        assert (Ec2 : (c =? nl) = false) by (apply eqb_nl_false; apply orb_true_iff in Ec; tauto).
+        rewrite (tmr_plain qmark) in R4 by reflexivity.
+        cbn [GA JA TA]. rewrite Ea, Eb2, Ec2. split; [exact R1|]. split; [exact R2|]. split; [|exact R4].
+        cbn [rev]. rewrite <- !app_assoc. exact R3.
+      * apply Hcopy. intro H226. cbn [look]. unfold mkb. rewrite H226 in Em. cbn [andb] in Em.
+        now rewrite Em.
+Qed.
+
+(* ---- GA / JA depend only on the line shape ---- *)
+Definition shape (s : str) : list bool := List.map is_empty (split_on nl s).
+
+Fixpoint GS (j : bool) (sh : list bool) (out : str) : str :=
+  match sh with
+  | [] => out
+  | e :: rest =>
+    match rest with
+    | [] => out
+    | _ => GS true rest (nl :: (if j && e then out else rmred ++ out))
+    end
+  end.
+
+Fixpoint JS (j : bool) (sh : list bool) : bool :=
+  match sh with
+  | [] => j
+  | e :: rest => match rest with [] => j && e | _ => JS true rest end
+  end.
+
+Lemma split_on_cons c s : exists l ls, split_on c s = l :: ls.
+Proof.
+  induction s as [|x s [l [ls IH]]]; [eexists; eexists; reflexivity|].
+  cbn [split_on]. destruct (x =? c); [eexists; eexists; reflexivity|].
+  rewrite IH. eexists; eexists; reflexivity.
+Qed.
+
+Lemma GA_GS s : forall j out, GA j s out = GS j (shape s) out /\ JA j s = JS j (shape s).
+Proof.
+  unfold shape. induction s as [|x t IH]; intros j out.
+  - cbn. now rewrite andb_true_r.
+  - cbn [GA JA split_on]. destruct (split_on_cons nl t) as [l [ls E]].
+    destruct (x =? nl) eqn:Ex.
+    + destruct (IH true (nl :: (if j then out else rmred ++ out))) as [I1 I2].
+      rewrite I1, I2, E. cbn [List.map GS JS]. now rewrite andb_true_r.
+    + destruct (IH false out) as [I1 I2]. rewrite I1, I2, E. cbn [List.map is_empty GS JS].
+      destruct (List.map is_empty ls); [now rewrite andb_false_r|].
+      now rewrite andb_false_r.
+Qed.
+
+Lemma GA_shape j s1 s2 out : shape s1 = shape s2 -> GA j s1 out = GA j s2 out /\ JA j s1 = JA j s2.
+Proof.
+  intro H. destruct (GA_GS s1 j out) as [-> ->]. destruct (GA_GS s2 j out) as [-> ->].
+  now rewrite H.
+Qed.
+
+
+Fixpoint TS (t : list bool) (sh : list bool) : list bool :=
+  match sh with
+  | [] => t
+  | e :: rest => match rest with [] => if e then t else [] | _ => TS [true] rest end
+  end.
+
+Lemma TA_TS s : forall t, TA t s = TS t (shape s).
+Proof.
+  unfold shape. induction s as [|x s IH]; intro t; [reflexivity|].
+  cbn [TA split_on]. destruct (split_on_cons nl s) as [l [ls E]].
+  destruct (x =? nl) eqn:Ex.
+  - rewrite IH, E. reflexivity.
+  - rewrite IH, E. cbn [List.map is_empty TS]. destruct (List.map is_empty ls); [|reflexivity].
+    destruct l; reflexivity.
+Qed.
+
+Lemma TA_shape t s1 s2 : shape s1 = shape s2 -> TA t s1 = TA t s2.
+Proof. intro H. now rewrite !TA_TS, H. Qed.
+
+(* ---- the loop without newline breaking (safe mode): it acts on the view ---- *)
+Lemma loop_view_safe : forall fuel s acc done k d,
+  (List.length s <= fuel)%nat -> rs true acc = Some (false, k, d) -> (k = K0 -> d = false) ->
+  look k s = true -> hist k done = true ->
+  rvo (escape_loop fuel s acc false) = escape_loop fuel s (rvo acc) false
+  /\ tmr (escape_loop fuel s acc false) = match s with [] => tmr acc | _ => [] end.
+Proof.
+  induction fuel as [|f IH]; intros s acc done k d Hlen Hrs Hd Hl Hh.
+  - destruct s; [|cbn in Hlen; lia]. split; reflexivity.
+  - destruct s as [|a t]; [split; reflexivity|].
+    cbn [escape_loop andb]. cbn [List.length] in Hlen.
+    assert (Hcopy : ((a =? 226) = true -> look K1 t = true) ->
+       rvo (escape_loop f t (a :: acc) false) = escape_loop f t (a :: rvo acc) false
+       /\ tmr (escape_loop f t (a :: acc) false) = []).
+    { intro H226. destruct (copy_step true false k d a t acc done Hrs Hd Hl Hh eq_refl H226) as [k1 [d1 [C1 [C2 [C3 C4]]]]].
+      destruct (IH t (a :: acc) (a :: done) k1 d1) as [R1 R2]; try assumption; [lia|].
+      rewrite rs_cons in C1. rewrite (rvo_closed_push _ _ _ _ _ _ Hrs C1) in R1.
+      split; [exact R1|]. rewrite R2. rewrite (tmr_push true acc false k d a t Hrs Hl). now destruct t. }
+    destruct t as [|b [|c r]]; try (apply Hcopy; intros _; reflexivity).
+    destruct ((a =? 226) && (b =? 128) && ((c =? 185) || (c =? 186))) eqn:Em.
+    + assert (Hq : step true (rs true acc) qmark = Some (false, K0, false)).
+      { rewrite Hrs. destruct k; reflexivity. }
+      destruct (IH r (qmark :: acc) (c :: b :: a :: done) K0 false) as [R1 R2];
+        try reflexivity; try assumption.
+      { cbn [List.length] in Hlen. lia. }
+      { now rewrite rs_cons. }
+      rewrite (rvo_closed_push _ _ _ _ _ _ Hrs Hq) in R1. split; [exact R1|].
+      rewrite R2. rewrite (tmr_plain qmark) by reflexivity. now destruct r.
+    + apply Hcopy. intro H226. cbn [look]. unfold mkb. rewrite H226 in Em. cbn [andb] in Em.
+      now rewrite Em.
+Qed.
+
+(* ---- the invalid-last-rune test looks at most four bytes back and stops at
+        a rune start: it cannot tell a buffer from its view ---- *)
+Fixpoint cut (n : nat) (l : str) : str :=
+  match n, l with
+  | S n', x :: r => if rune_start x then [x] else x :: cut n' r
+  | _, _ => []
+  end.
+
+Lemma lri_cut l : last_rune_invalid_rev l = last_rune_invalid_rev (cut 4 l).
+Proof.
+  destruct l as [|b0 r1]; [reflexivity|]. cbn [cut]. destruct (b0 <? 128) eqn:E0.
+  { destruct (rune_start b0); cbn [last_rune_invalid_rev]; rewrite E0; reflexivity. }
+  destruct (rune_start b0) eqn:R0.
+  { assert (C0 : is_cont b0 = false) by (unfold rune_start in R0; now apply negb_true_iff in R0).
+    cbn [last_rune_invalid_rev]. rewrite E0.
+    destruct r1 as [|b1 r2]; [reflexivity|].
+    destruct (rune_start b1). { unfold valid2. now rewrite C0, andb_false_r. }
+    destruct r2 as [|b2 r3]; [reflexivity|].
+    destruct (rune_start b2). { unfold valid3. now rewrite C0. }
+    destruct r3 as [|b3 r4]; [reflexivity|].
+    destruct (rune_start b3); [|reflexivity]. unfold valid4. now rewrite C0, andb_false_r. }
+  destruct r1 as [|b1 r2]; [reflexivity|]. cbn [cut].
+  destruct (rune_start b1) eqn:R1.
+  { cbn [last_rune_invalid_rev]. now rewrite E0, R1. }
+  destruct r2 as [|b2 r3]; [cbn [cut last_rune_invalid_rev]; now rewrite E0, R1|]. cbn [cut].
+  destruct (rune_start b2) eqn:R2.
+  { cbn [last_rune_invalid_rev]. now rewrite E0, R1, R2. }
+  destruct r3 as [|b3 r4]; [cbn [cut last_rune_invalid_rev]; now rewrite E0, R1, R2|]. cbn [cut].
+  destruct (rune_start b3) eqn:R3; cbn [last_rune_invalid_rev]; now rewrite E0, R1, R2, R3.
+Qed.
+
+Lemma cut_app_rel a1 a2 : (forall m, cut m a1 = cut m a2) ->
+  forall rp n, cut n (rp ++ a1) = cut n (rp ++ a2).
+Proof.
+  intros H rp. induction rp as [|x rp IH]; intro n; [apply H|].
+  destruct n; [reflexivity|]. cbn [app cut]. destruct (rune_start x); [reflexivity|]. now rewrite IH.
+Qed.
+
+Lemma top_K1 ao acc o d : rs ao acc = Some (o, K1, d) -> exists r, acc = 226 :: r.
+Proof.
+  destruct acc as [|y acc']; [discriminate|]. rewrite rs_cons.
+  destruct (rs ao acc') as [[[o1 k1] d1]|]; [|discriminate]. cbn [step].
+  destruct (y =? 226) eqn:E; [apply N.eqb_eq in E; subst; eauto|].
+  destruct k1.
+  - destruct ((y =? nl) && o1); discriminate.
+  - destruct (y =? 128); [discriminate|]. destruct ((y =? nl) && o1); discriminate.
+  - destruct (y =? 185); [destruct (o1 || negb ao); discriminate|].
+    destruct (y =? 186); [destruct o1; discriminate|]. destruct ((y =? nl) && o1); discriminate.
+Qed.
+
+Lemma top_K2 ao acc o d : rs ao acc = Some (o, K2, d) -> exists r, acc = 128 :: 226 :: r.
+Proof.
+  destruct acc as [|y acc']; [discriminate|]. rewrite rs_cons.
+  destruct (rs ao acc') as [[[o1 k1] d1]|] eqn:E1; [|discriminate]. cbn [step].
+  destruct (y =? 226) eqn:E; [discriminate|].
+  destruct k1.
+  - destruct ((y =? nl) && o1); discriminate.
+  - destruct (y =? 128) eqn:E128.
+    + intros _. apply N.eqb_eq in E128. subst y. apply top_K1 in E1 as [r ->]. eauto.
+    + destruct ((y =? nl) && o1); discriminate.
+  - destruct (y =? 185); [destruct (o1 || negb ao); discriminate|].
+    destruct (y =? 186); [destruct o1; discriminate|]. destruct ((y =? nl) && o1); discriminate.
+Qed.
+
+Lemma cut_rvo : forall acc k d, rs true acc = Some (false, k, d) -> forall m, cut m acc = cut m (rvo acc).
+Proof.
+  induction acc as [|x acc IH]; intros k d H m; [reflexivity|].
+  pose proof H as H'. rewrite rs_cons in H'.
+  destruct (rs true acc) as [[[o1 k1] d1]|] eqn:E1; [|discriminate].
+  destruct o1.
+  - (* the byte closes a region *)
+    assert (Hx : x = 186 /\ k1 = K2).
+    { cbn [step] in H'. destruct (x =? 226); [discriminate|]. destruct k1.
+      - destruct ((x =? nl) && true); discriminate.
+      - destruct (x =? 128); [discriminate|]. destruct ((x =? nl) && true); discriminate.
+      - destruct (x =? 185); [discriminate|]. destruct (x =? 186) eqn:E6.
+        + apply N.eqb_eq in E6. now split.
+        + destruct ((x =? nl) && true); discriminate. }
+    destruct Hx as [-> ->]. destruct (top_K2 _ _ _ _ E1) as [r ->].
+    rewrite rvo_cons, E1. cbn [step N.eqb Pos.eqb vout].
+    destruct m as [|[|[|m]]]; reflexivity.
+  - rewrite rvo_cons, E1, H'. cbn [vout]. destruct m; [reflexivity|]. cbn [cut].
+    now rewrite (IH _ _ eq_refl m).
+Qed.
+
+Lemma lri_rel a1 a2 k1 d1 k2 d2 rp :
+  rs true a1 = Some (false, k1, d1) -> rs true a2 = Some (false, k2, d2) -> rvo a1 = rvo a2 ->
+  last_rune_invalid_rev (rp ++ a1) = last_rune_invalid_rev (rp ++ a2).
+Proof.
+  intros H1 H2 Hv. rewrite (lri_cut (rp ++ a1)), (lri_cut (rp ++ a2)). f_equal.
+  apply cut_app_rel. intro m. now rewrite (cut_rvo _ _ _ H1), (cut_rvo _ _ _ H2), Hv.
+Qed.
+
+(* ------------------------------------------------------------------ *)
+(* two buffers with the same view                                      *)
+(* ------------------------------------------------------------------ *)
+Definition RelAt (st : ast) (v1 v2 : str) : Prop :=
+  sst true v1 = Some st /\ sst true v2 = Some st /\ vo v1 = vo v2 /\ tmr (rev v1) = tmr (rev v2).
+Definition RelC := RelAt st0.
+Definition RelO := RelAt (true, K0, false).
+
+Lemma rs_rev ao v : rs ao (rev v) = sst ao v.
+Proof. unfold rs. now rewrite rev_involutive. Qed.
+
+Lemma vo_rev acc : vo (rev acc) = rvo acc.
+Proof. now rewrite rvo_vo, rev_involutive. Qed.
+
+Lemma esc_closed_rel v1 v2 p :
+  RelC v1 v2 -> RelC (escape_from v1 p false) (escape_from v2 p false).
+Proof.
+  intros [H1 [H2 [Hv Ht]]].
+  split; [exact (escape_from_inv true false v1 p (ff_imp true) H1)|].
+  split; [exact (escape_from_inv true false v2 p (ff_imp true) H2)|].
+  unfold escape_from.
+  pose proof (rs_rev true v1) as S1. rewrite H1 in S1.
+  pose proof (rs_rev true v2) as S2. rewrite H2 in S2.
+  destruct (loop_view_safe (List.length p) p (rev v1) (rev v1) K0 false (le_n _) S1 (fun _ => eq_refl) eq_refl eq_refl) as [A1 B1].
+  destruct (loop_view_safe (List.length p) p (rev v2) (rev v2) K0 false (le_n _) S2 (fun _ => eq_refl) eq_refl eq_refl) as [A2 B2].
+  destruct (loop_inv true false (ff_imp true) (List.length p) p (rev v1) (rev v1) K0 false (le_n _) S1 (fun _ => eq_refl) eq_refl eq_refl) as [k1 [d1 [C1 _]]].
+  destruct (loop_inv true false (ff_imp true) (List.length p) p (rev v2) (rev v2) K0 false (le_n _) S2 (fun _ => eq_refl) eq_refl eq_refl) as [k2 [d2 [C2 _]]].
+  rewrite <- !rvo_vo in A1, A2. rewrite Hv in A1. rewrite <- A2 in A1.
+  assert (Bt : tmr (escape_loop (List.length p) p (rev v1) false) = tmr (escape_loop (List.length p) p (rev v2) false)).
+  { rewrite B1, B2. now destruct p. }
+  rewrite (lri_rel (rev v1) (rev v2) K0 false K0 false (rev p) S1 S2) by (now rewrite <- !rvo_vo).
+  destruct (last_rune_invalid_rev (rev p ++ rev v2)).
+  - rewrite !vo_rev, !rev_involutive. split.
+    + assert (Q1 : step true (rs true (escape_loop (List.length p) p (rev v1) false)) qmark = Some (false, K0, false))
+        by (rewrite C1; destruct k1; reflexivity).
+      assert (Q2 : step true (rs true (escape_loop (List.length p) p (rev v2) false)) qmark = Some (false, K0, false))
+        by (rewrite C2; destruct k2; reflexivity).
+      rewrite (rvo_closed_push _ _ _ _ _ _ C1 Q1), (rvo_closed_push _ _ _ _ _ _ C2 Q2). now rewrite A1.
+    + now rewrite !(tmr_plain qmark) by reflexivity.
+  - rewrite !vo_rev, !rev_involutive. split; assumption.
+Qed.
+
+Lemma jb_lri a : jb a = true -> last_rune_invalid_rev a = false.
+Proof.
+  unfold jb. destruct (drop_prefix rstart a) as [r|] eqn:E; [|discriminate].
+  intros _. apply drop_prefix_Some in E. subst a. reflexivity.
+Qed.
+
+Lemma esc_open_rel v1 v2 s1 s2 :
+  RelO v1 v2 -> shape s1 = shape s2 -> RelO (escape_from v1 s1 true) (escape_from v2 s2 true).
+Proof.
+  intros [H1 [H2 [Hv Ht]]] Hs.
+  split; [exact (escape_from_inv true true v1 s1 (fun _ => eq_refl) H1)|].
+  split; [exact (escape_from_inv true true v2 s2 (fun _ => eq_refl) H2)|].
+  unfold escape_from.
+  pose proof (rs_rev true v1) as S1. rewrite H1 in S1.
+  pose proof (rs_rev true v2) as S2. rewrite H2 in S2.
+  destruct (loop_view (List.length s1) s1 (rev v1) (rev v1) K0 false (le_n _) S1 (fun _ => eq_refl) eq_refl eq_refl (jb_lri _)) as [A1 [J1 [L1 T1]]].
+  destruct (loop_view (List.length s2) s2 (rev v2) (rev v2) K0 false (le_n _) S2 (fun _ => eq_refl) eq_refl eq_refl (jb_lri _)) as [A2 [J2 [L2 T2]]].
+  destruct (loop_inv true true (fun _ => eq_refl) (List.length s1) s1 (rev v1) (rev v1) K0 false (le_n _) S1 (fun _ => eq_refl) eq_refl eq_refl) as [k1 [d1 [C1 _]]].
+  destruct (loop_inv true true (fun _ => eq_refl) (List.length s2) s2 (rev v2) (rev v2) K0 false (le_n _) S2 (fun _ => eq_refl) eq_refl eq_refl) as [k2 [d2 [C2 _]]].
+  assert (Ej : jb (rev v1) = jb (rev v2)) by (now rewrite !jb_tmr, Ht).
+  rewrite <- !rvo_vo in A1, A2. rewrite Hv, Ej in A1. rewrite (proj1 (GA_shape _ _ _ _ Hs)) in A1. rewrite <- A2 in A1.
+  rewrite Ht, (TA_shape _ _ _ Hs) in T1. rewrite <- T2 in T1.
+  set (L1' := escape_loop (List.length s1) s1 (rev v1) true) in *.
+  set (L2' := escape_loop (List.length s2) s2 (rev v2) true) in *.
+  assert (F : forall L k d (b : bool), rs true L = Some (true, k, d) -> (jb L = true -> b = false) ->
+            rvo (if b then qmark :: L else L) = rvo L /\ tmr (if b then qmark :: L else L) = tmr L).
+  { intros L k d b HL Hb. destruct b; [|split; reflexivity]. split.
+    - assert (Q : step true (rs true L) qmark = Some (true, K0, false)) by (rewrite HL; destruct k; reflexivity).
+      exact (rvo_open_push _ _ _ _ _ _ HL Q).
+    - rewrite (tmr_plain qmark) by reflexivity. destruct (tmr_open L k d HL) as [E|E]; [now rewrite E|].
+      specialize (Hb E). discriminate. }
+  destruct (F L1' k1 d1 _ C1 L1) as [F1 G1]. destruct (F L2' k2 d2 _ C2 L2) as [F2 G2].
+  rewrite !vo_rev, !rev_involutive. split; [exact (eq_trans F1 (eq_trans A1 (eq_sym F2)))|exact (eq_trans G1 (eq_trans T1 (eq_sym G2)))].
+Qed.
+
+Definition sr (v : str) : str :=
+  match drop_suffix m_end v with Some w => w | None => v ++ m_start end.
+Definition er (R : str) : str :=
+  match drop_suffix m_start R with Some w => w | None => R ++ m_end end.
+
+Lemma drop_suffix_end_cases v :
+  (exists w, drop_suffix m_end v = Some w /\ v = w ++ m_end)
+  \/ (drop_suffix m_end v = None /\ forall l, tmr (rev v) <> false :: l).
+Proof.
+  destruct (drop_suffix m_end v) as [w|] eqn:E.
+  - left. exists w. split; [reflexivity|]. now apply drop_suffix_Some.
+  - right. split; [reflexivity|]. intros l Hl. apply tmr_false in Hl as [r [Hr _]].
+    unfold drop_suffix in E. rewrite Hr in E. discriminate.
+Qed.
+
+Lemma drop_suffix_start_cases v :
+  (exists w, drop_suffix m_start v = Some w /\ v = w ++ m_start)
+  \/ (drop_suffix m_start v = None /\ forall l, tmr (rev v) <> true :: l).
+Proof.
+  destruct (drop_suffix m_start v) as [w|] eqn:E.
+  - left. exists w. split; [reflexivity|]. now apply drop_suffix_Some.
+  - right. split; [reflexivity|]. intros l Hl. apply tmr_true in Hl as [r [Hr _]].
+    unfold drop_suffix in E. rewrite Hr in E. discriminate.
+Qed.
+
+Lemma sr_rel v1 v2 : RelC v1 v2 -> RelO (sr v1) (sr v2).
+Proof.
+  intros [H1 [H2 [Hv Ht]]]. unfold sr.
+  destruct (drop_suffix_end_cases v1) as [[w1 [E1 X1]]|[E1 X1]];
+  destruct (drop_suffix_end_cases v2) as [[w2 [E2 X2]]|[E2 X2]]; rewrite E1, E2.
+  - subst v1 v2. unfold sst in H1, H2. rewrite run_app in H1, H2.
+    apply strip_close_strict in H1, H2. rewrite !rev_app_distr in Ht.
+    change (rev m_end) with rend in Ht. rewrite !tmr_rend in Ht. injection Ht as Ht.
+    rewrite !rvo_vo, !rev_app_distr in Hv. change (rev m_end) with rend in Hv.
+    rewrite (rvo_rend (rev w1) K0 false), (rvo_rend (rev w2) K0 false) in Hv by (now rewrite rs_rev).
+    apply app_inv_head in Hv. rewrite <- !rvo_vo in Hv. repeat split; assumption.
+  - exfalso. subst v1. rewrite rev_app_distr in Ht. change (rev m_end) with rend in Ht.
+    rewrite tmr_rend in Ht. symmetry in Ht. exact (X2 _ Ht).
+  - exfalso. subst v2. rewrite rev_app_distr in Ht. change (rev m_end) with rend in Ht.
+    rewrite tmr_rend in Ht. exact (X1 _ Ht).
+  - split; [unfold sst in *; rewrite run_app, H1; reflexivity|].
+    split; [unfold sst in *; rewrite run_app, H2; reflexivity|].
+    rewrite !rvo_vo, !rev_app_distr. change (rev m_start) with rstart.
+    rewrite (rvo_rstart (rev v1) K0 false), (rvo_rstart (rev v2) K0 false) by (now rewrite rs_rev).
+    rewrite <- !rvo_vo, !tmr_rstart. split; congruence.
+Qed.
+
+Lemma er_rel R1 R2 : RelO R1 R2 -> RelC (er R1) (er R2).
+Proof.
+  intros [H1 [H2 [Hv Ht]]]. unfold er.
+  destruct (drop_suffix_start_cases R1) as [[w1 [E1 X1]]|[E1 X1]];
+  destruct (drop_suffix_start_cases R2) as [[w2 [E2 X2]]|[E2 X2]]; rewrite E1, E2.
+  - subst R1 R2. unfold sst in H1, H2. rewrite run_app in H1, H2.
+    apply strip_open_strict in H1, H2. rewrite !rev_app_distr in Ht.
+    change (rev m_start) with rstart in Ht. rewrite !tmr_rstart in Ht. injection Ht as Ht.
+    rewrite !rvo_vo, !rev_app_distr in Hv. change (rev m_start) with rstart in Hv.
+    rewrite (rvo_rstart (rev w1) K0 false), (rvo_rstart (rev w2) K0 false) in Hv by (now rewrite rs_rev).
+    rewrite <- !rvo_vo in Hv. repeat split; assumption.
+  - exfalso. subst R1. rewrite rev_app_distr in Ht. change (rev m_start) with rstart in Ht.
+    rewrite tmr_rstart in Ht. symmetry in Ht. exact (X2 _ Ht).
+  - exfalso. subst R2. rewrite rev_app_distr in Ht. change (rev m_start) with rstart in Ht.
+    rewrite tmr_rstart in Ht. exact (X1 _ Ht).
+  - split; [unfold sst in *; rewrite run_app, H1; reflexivity|].
+    split; [unfold sst in *; rewrite run_app, H2; reflexivity|].
+    rewrite !rvo_vo, !rev_app_distr. change (rev m_end) with rend.
+    rewrite (rvo_rend (rev R1) K0 false), (rvo_rend (rev R2) K0 false) by (now rewrite rs_rev).
+    rewrite <- !rvo_vo, !tmr_rend. split; congruence.
+Qed.
+
+Lemma raw_rel v1 v2 r : RelC v1 v2 -> raw_ok r -> RelC (v1 ++ r) (v2 ++ r).
+Proof.
+  intros [H1 [H2 [Hv Ht]]] Hr.
+  split; [unfold sst in *; rewrite run_app, H1; exact Hr|].
+  split; [unfold sst in *; rewrite run_app, H2; exact Hr|].
+  split.
+  - unfold vo. rewrite !vrun_app.
+    assert (E : forall v, sst true v = Some st0 -> vrun v (Some st0, []) = (Some st0, vo v)).
+    { intros v H. rewrite (surjective_pairing (vrun v (Some st0, []))). rewrite vrun_fst. cbn [fst].
+      f_equal. exact H. }
+    now rewrite (E v1 H1), (E v2 H2), Hv.
+  - rewrite !rev_app_distr. eapply k0_tmr_app; try reflexivity; try exact Ht; rewrite rs_rev; eassumption.
+Qed.
+
+(* ------------------------------------------------------------------ *)
+(* pieces, explicitly                                                  *)
+(* ------------------------------------------------------------------ *)
+Lemma RelC_refl v : sst true v = Some st0 -> RelC v v.
+Proof. intro H. repeat split; assumption. Qed.
+
+Definition unsafe_result (v p s : str) : str :=
+  er (escape_from (sr (escape_from v p false)) s true).
+
+Lemma print_unsafe_eq b s : Inv true b ->
+  print_piece b (PUnsafe s) = mkbuf (unsafe_result (bvalid b) (bpend b) s) [] SafeEscaped false.
+Proof.
+  intros [Hm [Ho Hv]]. cbn [print_piece]. rewrite Hm.
+  rewrite (set_mode_safe_to b) by (assumption || discriminate).
+  pose proof (esc_closed_rel _ _ (bpend b) (RelC_refl _ Hv)) as R1.
+  pose proof (sr_rel _ _ R1) as R2. pose proof (esc_open_rel _ _ s s R2 eq_refl) as [R3 _].
+  unfold unsafe_result.
+  set (v1 := escape_from (bvalid b) (bpend b) false) in *. clearbody v1.
+  assert (E1 : buf_write (mkbuf v1 [] UnsafeEscaped false) s = mkbuf (sr v1) s UnsafeEscaped true).
+  { unfold buf_write, start_write, start_redactable, whole, sr. cbn [bmode bopen bvalid bpend].
+    rewrite app_nil_r. destruct (drop_suffix m_end v1); reflexivity. }
+  rewrite E1. set (v2 := sr v1) in *. clearbody v2.
+  unfold set_mode. cbn [bmode omode_eqb]. unfold escape_to_end. cbn [bmode bopen bvalid bpend].
+  set (R := escape_from v2 s true) in *. clearbody R.
+  unfold end_redactable, whole. cbn [bmode bopen bvalid bpend]. rewrite app_nil_r.
+  destruct R as [|x R']; [discriminate|]. set (R := x :: R') in *. clearbody R.
+  unfold er. destruct (drop_suffix m_start R);
+    unfold validate_all, whole; cbn [bmode bopen bvalid bpend]; now rewrite app_nil_r.
+Qed.
+
+Lemma print_raw_eq ao b r : Inv ao b ->
+  print_piece b (PRaw r) = mkbuf (escape_from (bvalid b) (bpend b) false ++ r) [] SafeEscaped false.
+Proof.
+  intros [Hm [Ho Hv]]. cbn [print_piece]. rewrite Hm.
+  rewrite (set_mode_safe_to b) by (assumption || discriminate).
+  unfold buf_write, start_write. cbn [bmode bopen bvalid bpend app].
+  unfold set_mode. cbn [bmode omode_eqb bopen]. unfold validate_all, whole. cbn [bmode bopen bvalid bpend].
+  reflexivity.
+Qed.
+
+Lemma print_safe_eq ao b s : Inv ao b ->
+  print_piece b (PSafe s) = mkbuf (bvalid b) (bpend b ++ s) SafeEscaped false.
+Proof.
+  intros [Hm [Ho Hv]]. cbn [print_piece].
+  assert (E : set_mode b SafeEscaped = b) by (rewrite <- Hm; apply set_mode_same).
+  rewrite E. unfold buf_write, start_write. rewrite !Hm. cbv zeta iota.
+  unfold set_mode. cbn [bmode omode_eqb]. now rewrite Ho.
+Qed.
+
+Lemma print_lit_eq ao b s : Inv ao b ->
+  print_piece b (PLit s) = mkbuf (bvalid b) (bpend b ++ s) SafeEscaped false.
+Proof.
+  intros [Hm [Ho Hv]]. cbn [print_piece]. unfold buf_write, start_write. rewrite !Hm. cbv zeta iota.
+  now rewrite Ho.
+Qed.
+
+Lemma take_eq ao b : Inv ao b -> buf_take b = escape_from (bvalid b) (bpend b) false.
+Proof.
+  intros [Hm [Ho Hv]]. unfold buf_take, buf_finalize. rewrite Hm. unfold escape_to_end. cbn [bopen bmode].
+  rewrite Ho. unfold whole. cbn [bvalid bpend]. now rewrite app_nil_r.
+Qed.
+
+Definition BRel (b1 b2 : rbuf) : Prop :=
+  Inv true b1 /\ Inv true b2 /\ bpend b1 = bpend b2 /\ RelC (bvalid b1) (bvalid b2).
+
+Lemma BRel_refl b : Inv true b -> BRel b b.
+Proof. intro H. repeat split; try apply H. Qed.
+
+Lemma unsafe_rel b1 b2 s1 s2 :
+  BRel b1 b2 -> shape s1 = shape s2 -> BRel (print_piece b1 (PUnsafe s1)) (print_piece b2 (PUnsafe s2)).
+Proof.
+  intros [I1 [I2 [Hp HR]]] Hs.
+  pose proof (print_piece_inv true b1 (PUnsafe s1) I1 eq_refl) as J1.
+  pose proof (print_piece_inv true b2 (PUnsafe s2) I2 eq_refl) as J2.
+  split; [exact J1|]. split; [exact J2|].
+  rewrite (print_unsafe_eq b1 s1 I1), (print_unsafe_eq b2 s2 I2). cbn [bpend bvalid].
+  split; [reflexivity|]. unfold unsafe_result. rewrite Hp.
+  apply er_rel, esc_open_rel; [|exact Hs]. apply sr_rel, esc_closed_rel. exact HR.
+Qed.
+
+Lemma piece_rel b1 b2 p :
+  BRel b1 b2 -> piece_ok true p -> BRel (print_piece b1 p) (print_piece b2 p).
+Proof.
+  intros HB Hp. destruct p as [s|s|s|r].
+  - destruct HB as [I1 [I2 [Hpd HR]]].
+    split; [exact (print_piece_inv true b1 _ I1 Hp)|]. split; [exact (print_piece_inv true b2 _ I2 Hp)|].
+    rewrite (print_lit_eq true b1 s I1), (print_lit_eq true b2 s I2). cbn [bpend bvalid].
+    split; [now rewrite Hpd|exact HR].
+  - now apply unsafe_rel.
+  - destruct HB as [I1 [I2 [Hpd HR]]].
+    split; [exact (print_piece_inv true b1 _ I1 Hp)|]. split; [exact (print_piece_inv true b2 _ I2 Hp)|].
+    rewrite (print_safe_eq true b1 s I1), (print_safe_eq true b2 s I2). cbn [bpend bvalid].
+    split; [now rewrite Hpd|exact HR].
+  - destruct HB as [I1 [I2 [Hpd HR]]].
+    split; [exact (print_piece_inv true b1 _ I1 Hp)|]. split; [exact (print_piece_inv true b2 _ I2 Hp)|].
+    rewrite (print_raw_eq true b1 r I1), (print_raw_eq true b2 r I2). cbn [bpend bvalid].
+    split; [reflexivity|]. rewrite Hpd. apply raw_rel; [|exact Hp]. now apply esc_closed_rel.
+Qed.
+
+Lemma pieces_rel ps : forall b1 b2, BRel b1 b2 -> Forall (piece_ok true) ps ->
+  BRel (fold_left print_piece ps b1) (fold_left print_piece ps b2).
+Proof.
+  induction ps as [|p ps IH]; intros b1 b2 HB Hf; [exact HB|].
+  inversion Hf; subst. cbn [fold_left]. apply IH; [|assumption]. now apply piece_rel.
+Qed.
+
+Lemma take_rel b1 b2 : BRel b1 b2 -> redact (buf_take b1) = redact (buf_take b2).
+Proof.
+  intros [I1 [I2 [Hp HR]]]. rewrite (take_eq true b1 I1), (take_eq true b2 I2), Hp.
+  destruct (esc_closed_rel _ _ (bpend b2) HR) as [H1 [H2 [Hv _]]].
+  rewrite (redact_vo _ H1), (redact_vo _ H2). now rewrite Hv.
+Qed.
+
+(* ------------------------------------------------------------------ *)
+(* N4, N5                                                              *)
+(* ------------------------------------------------------------------ *)
+(* N5 (with the hypothesis on raw pieces of N3) *)
+Theorem redact_pieces_ni pre post s1 s2 :
+  pieces_ok pre -> pieces_ok post ->
+  List.map is_empty (split_on nl s1) = List.map is_empty (split_on nl s2) ->
+  redact (sprint_pieces (pre ++ PUnsafe s1 :: post)) = redact (sprint_pieces (pre ++ PUnsafe s2 :: post)).
+Proof.
+  intros Hpre Hpost Hs. unfold sprint_pieces, print_pieces. rewrite !fold_left_app. cbn [fold_left].
+  apply take_rel, pieces_rel; [|now apply pieces_ok_piece_ok].
+  apply unsafe_rel; [|exact Hs]. apply BRel_refl.
+  apply print_pieces_inv; [repeat split|now apply pieces_ok_piece_ok].
+Qed.
+
+(* N4 *)
+Theorem redact_unsafe_shape s1 s2 :
+  List.map is_empty (split_on nl s1) = List.map is_empty (split_on nl s2) ->
+  redact (sprint_pieces [PUnsafe s1]) = redact (sprint_pieces [PUnsafe s2]).
+Proof. intro H. exact (redact_pieces_ni [] [] s1 s2 (Forall_nil _) (Forall_nil _) H). Qed.
+
+(* N5 as stated (without the hypothesis on raw pieces) is FALSE: a raw piece
+   that is not a well-formed redactable string lets the unsafe argument merge
+   with it *)
+Example redact_pieces_ni_stated_false :
+  let pre := [PRaw m_end] in
+  List.map is_empty (split_on nl [226]) = List.map is_empty (split_on nl [97])
+  /\ redact (sprint_pieces (pre ++ PUnsafe [226] :: [])) <> redact (sprint_pieces (pre ++ PUnsafe [97] :: [])).
+Proof. split; [reflexivity|]. vm_compute. discriminate. Qed.
+
+(* ------------------------------------------------------------------ *)
+(* [raw_ok] in plain terms: well-formed markers, and neither the end of *)
+(* the string nor the text before any of its trailing markers is a      *)
+(* dangling E2 / E2 80                                                   *)
+(* ------------------------------------------------------------------ *)
+Definition dangling (a : str) : bool :=   (* a is the string reversed *)
+  match a with
+  | x :: r => (x =? 226) || ((x =? 128) && match r with y :: _ => y =? 226 | [] => false end)
+  | [] => false
+  end.
+
+Fixpoint tail_clean (a : str) : bool :=
+  negb (dangling a) &&
+  match a with
+  | x :: (y :: (z :: r)) => if (y =? 128) && (z =? 226) && mkb x then tail_clean r else true
+  | _ => true
+  end.
+
+Lemma tail_clean_226 r : tail_clean (226 :: r) = false.
+Proof. destruct r as [|y [|z r]]; reflexivity. Qed.
+Lemma tail_clean_128_226 r : tail_clean (128 :: 226 :: r) = false.
+Proof. destruct r as [|z r]; reflexivity. Qed.
+
+Lemma d_sem : forall acc o k d, rs true acc = Some (o, k, d) ->
+  match k with
+  | K0 => dangling acc = false /\ d = negb (tail_clean acc)
+  | K1 => exists r, acc = 226 :: r /\ d = negb (tail_clean r)
+  | K2 => exists r, acc = 128 :: 226 :: r /\ d = negb (tail_clean r)
+  end.
+Proof.
+  induction acc as [|x acc IH]; intros o k d H.
+  - injection H as <- <- <-. split; reflexivity.
+  - rewrite rs_cons in H. destruct (rs true acc) as [[[o1 k1] d1]|] eqn:E1; [|discriminate].
+    specialize (IH o1 k1 d1 eq_refl). cbn [step] in H.
+    destruct (x =? 226) eqn:E226.
+    { apply N.eqb_eq in E226. subst x. injection H as <- <- <-. exists acc. split; [reflexivity|].
+      destruct k1.
+      - apply IH.
+      - destruct IH as [r [-> _]]. now rewrite tail_clean_226.
+      - destruct IH as [r [-> _]]. now rewrite tail_clean_128_226. }
+    destruct k1.
+    + destruct IH as [Hd Hc]. destruct ((x =? nl) && o1); [discriminate|]. injection H as <- <- <-.
+      assert (D : dangling (x :: acc) = false).
+      { cbn [dangling]. rewrite E226. destruct acc as [|y r]; [now rewrite andb_false_r|].
+        cbn [dangling] in Hd. apply orb_false_iff in Hd as [-> _]. now rewrite andb_false_r. }
+      split; [exact D|]. cbn [tail_clean]. rewrite D.
+      destruct acc as [|y [|z r]]; try reflexivity.
+      cbn [dangling] in Hd. apply orb_false_iff in Hd as [_ Hd]. now rewrite Hd.
+    + destruct IH as [r [-> Hc]]. destruct (x =? 128) eqn:E128.
+      * apply N.eqb_eq in E128. subst x. injection H as <- <- <-. exists r. now split.
+      * destruct ((x =? nl) && o1); [discriminate|]. injection H as <- <- <-.
+        split; [cbn [dangling]; now rewrite E226, E128|].
+        cbn [tail_clean dangling]. rewrite E226, E128. destruct r; reflexivity.
+    + destruct IH as [r [-> Hc]].
+      destruct (x =? 185) eqn:E185.
+      { apply N.eqb_eq in E185. subst x. destruct o1; [discriminate|]. injection H as <- <- <-.
+        split; [reflexivity|]. exact Hc. }
+      destruct (x =? 186) eqn:E186.
+      { apply N.eqb_eq in E186. subst x. destruct o1; [|discriminate]. injection H as <- <- <-.
+        split; [reflexivity|]. exact Hc. }
+      destruct ((x =? nl) && o1); [discriminate|]. injection H as <- <- <-.
+      assert (E128 : (x =? 128) && (128 =? 226) = false) by now rewrite andb_false_r.
+      split; [cbn [dangling]; now rewrite E226, E128|].
+      cbn [tail_clean dangling]. unfold mkb. now rewrite E226, E128, E185, E186.
+Qed.
+
+Theorem raw_ok_iff r : raw_ok r <-> wf_red r = true /\ tail_clean (rev r) = true.
+Proof.
+  split.
+  - intro H. split; [now apply raw_ok_wf|].
+    pose proof (rs_rev true r) as S. rewrite H in S. apply d_sem in S as [_ S].
+    destruct (tail_clean (rev r)); [reflexivity|discriminate].
+  - intros [Hw Ht]. unfold wf_red in Hw. destruct (corr true r false false) as [C _].
+    rewrite <- C in Hw by reflexivity. unfold raw_ok.
+    change (acc_st (sst true r) = true) in Hw.
+    destruct (sst true r) as [[[o k] d]|] eqn:E; [|discriminate]. destruct o; [discriminate|].
+    pose proof (rs_rev true r) as S. rewrite E in S. apply d_sem in S. destruct k.
+    + destruct S as [_ ->]. now rewrite Ht.
+    + destruct S as [r' [Er _]]. rewrite Er, tail_clean_226 in Ht. discriminate.
+    + destruct S as [r' [Er _]]. rewrite Er, tail_clean_128_226 in Ht. discriminate.
+Qed.
+
+(* every output of the printer is itself a valid raw piece: [sprint_raw_ok] *)
+Lemma raw_ok_nil : raw_ok [].
+Proof. reflexivity. Qed.
+
+Example raw_ok_examples :
+  raw_ok (m_start ++ [97] ++ m_end) /\ raw_ok [97; 10; 98] /\ raw_ok (m_start ++ [226; 63] ++ m_end)
+  /\ ~ raw_ok [226] /\ ~ raw_ok (m_start ++ [226] ++ m_end) /\ ~ raw_ok m_end.
+Proof. repeat split; try reflexivity; intro H; discriminate H. Qed.
